@@ -314,3 +314,62 @@ Example C19_osc_history_nonvacuous :
   /\ nth 0 (osc_history h) [] <> nth 1 (osc_history h) []
   /\ nth 0 (osc_history h) [] = nth 3 (osc_history h) [].
 Proof. vm_compute. repeat split. discriminate. Qed.
+
+(** ======================= several devices alive in one process ======================= *)
+(* (added for the seeded change C19-f: the state of a device object is its own)
+   A process with any number of device objects is the product of independent copies of the single-device state
+   machine (IO/MultiDevice.v); a history is ANY interleaving of calls, each addressed to one device. *)
+From Isobar Require Import IO.MultiDevice IO.MultiDeviceProofs.
+
+(* non-interference, for EVERY kind of device (any state, call and output types, any step function): in any
+   interleaving, device d produces exactly what its own call subsequence produces on a device that is alone, and ends
+   in the state it would have reached alone; a device that has not been called yet is still in its initial state *)
+Theorem C19_multi_noninterference : forall (S C O : Type) (step : S -> C -> S * O) (cs : list (Z * C)) (ps : pstate S) d,
+  outs_of d (prun step ps cs) = run1 step (ps d) (calls_of d cs)
+  /\ pfinal step ps cs d = final1 step (ps d) (calls_of d cs)
+  /\ (calls_of d cs = [] -> pfinal step ps cs d = ps d).
+Proof.
+  intros S C O step cs ps d. destruct (noninterference S C O step cs ps d) as [A B].
+  split; [exact A | split; [exact B | apply untouched_device]].
+Qed.
+Print Assumptions C19_multi_noninterference.
+
+Theorem C19_multi_interleaving_irrelevant : forall (S C O : Type) (step : S -> C -> S * O) cs1 cs2 (ps : pstate S) d,
+  calls_of d cs1 = calls_of d cs2 ->
+  outs_of d (prun step ps cs1) = outs_of d (prun step ps cs2).
+Proof. exact interleaving_irrelevant. Qed.
+Print Assumptions C19_multi_interleaving_irrelevant.
+
+(* k MPE devices: whatever the OTHER devices are asked to do (fifteen held notes, malformed releases, anything), a
+   device whose own calls are well-formed sends exactly what it would send alone — every note_on on a channel of 1..15
+   that none of ITS held notes uses, release and expression on the note's channel, release frees it — and its
+   tables keep the channels of its held notes distinct *)
+Theorem C19_mpe_multi : forall cs d,
+  mpe_wf [] (calls_of d cs) ->
+  outs_of d (mpe_multi_run cs) = mpe_run mpe_init (calls_of d cs)
+  /\ mpe_trace_ok [] (calls_of d cs) (outs_of d (mpe_multi_run cs))
+  /\ let s := pfinal mpe_step mpe_all_init cs d in
+     (forall n1 n2 c, note_chan s n1 = Some c -> note_chan s n2 = Some c -> n1 = n2)
+     /\ (forall n c, note_chan s n = Some c -> 1 <= c <= 15).
+Proof.
+  intros cs d W. destruct (mpe_multi_alone cs d) as [A _]. destruct (mpe_multi_ok cs d W) as [B D].
+  split; [exact A | split; [exact B | exact D]].
+Qed.
+Print Assumptions C19_mpe_multi.
+
+(* two synths: the same key on both, fifteen notes held on device 0 while device 1 plays; each device allocates from
+   its own channels 1..15 *)
+Example C19_mpe_multi_nonvacuous :
+  let cs := [(0, On 60 100); (1, On 60 90); (0, Off 60); (1, Off 60)]
+            ++ map (fun n => (0, On n 64)) (zrange 40 15) ++ [(1, On 70 1); (1, On 71 2); (0, Off 47); (1, Off 70); (1, On 72 3)] in
+  mpe_wf [] (calls_of 0 cs) /\ mpe_wf [] (calls_of 1 cs)
+  /\ outs_of 1 (mpe_multi_run cs)
+     = [Wire (NoteOn 1 60 90); Wire (NoteOff 1 60 64); Wire (NoteOn 1 70 1); Wire (NoteOn 2 71 2); Wire (NoteOff 1 70 64);
+        Wire (NoteOn 1 72 3)]
+  /\ firstn 3 (outs_of 0 (mpe_multi_run cs)) = [Wire (NoteOn 1 60 100); Wire (NoteOff 1 60 64); Wire (NoteOn 1 40 64)]
+  /\ nth 17 (outs_of 0 (mpe_multi_run cs)) Silent = Wire (NoteOff 8 47 64).
+Proof.
+  cbn zeta. split; [|split; [|vm_compute; repeat split]].
+  - vm_compute. repeat split; try lia; intuition lia.
+  - vm_compute. repeat split; try lia; intuition lia.
+Qed.
